@@ -23,6 +23,14 @@ import (
 
 const hangAfter = 4 * time.Second
 
+// hangLimit: a concurrent mix runs thousands of operations (under the race detector, too)
+func hangLimit(op string) time.Duration {
+	if op == "mix" {
+		return 10 * hangAfter
+	}
+	return hangAfter
+}
+
 type ctx struct {
 	rng      *rand.Rand
 	thorough bool
@@ -63,7 +71,7 @@ func (c *ctx) emit(cs sx) {
 		go func() { done <- protectSx(func() sx { return c.exec(cs.tag(), cs.args()) }) }()
 		select {
 		case out = <-done:
-		case <-time.After(hangAfter):
+		case <-time.After(hangLimit(cs.tag())):
 			cs.list = append(cs.list, T("hang"))
 			c.out.WriteString(cs.String())
 			c.out.WriteByte('\n')
